@@ -32,11 +32,17 @@ def is_sentinel(eng, st, v):
     return z3.Or(*[v == sentinel(eng, st, n) for n in SENT])
 
 
+def cls_level(eng, st, v, sid):
+    """the class-level part of an attribute read, exactly as the engine models it (pyvc/models.py foreign_getattr / dyn_getattr):
+    on a class value the class's own (inherited) attribute, otherwise the attribute of the value's class"""
+    return z3.If(is_cls(v), clsattr(c_of(v), sid), clsattr(eng.type_of(st, v), sid))
+
+
 def meta_of(eng, st, obj):
     """obj.__spec_class__ as found by attribute lookup on a foreign object"""
     sid = STR.sid("__spec_class__")
     iv = z3.If(is_ref(obj), z3.Select(st.get("idict", a_of(obj)), sid), ABSENT)
-    return z3.If(is_absent(iv), clsattr(eng.type_of(st, obj), sid), iv)
+    return z3.If(is_absent(iv), clsattr(eng.type_of(st, obj), sid), iv)          # (obj: an instance, never a class value)
 
 
 def cid(name):
